@@ -95,6 +95,7 @@ def monitor(lines, impl, which):
     # C06, handler clocks: which (process, message type) pairs carry a clock reading (`K:` actions; not also used by `R:`)
     ktips, rtips, skew = set(), set(), {}
     where = {}
+    local_ids = set()
     unread = {}         # proc -> local messages sent (trace) and not yet returned by a reading call
     for l in lines:
         if l.startswith("rule "):
@@ -351,6 +352,11 @@ def monitor(lines, impl, which):
                     for cq, ct in crash_epoch.get(node, []):
                         if tid in timers and timers[tid][3] < cq:
                             return f"timer {tid} of node {node} was pending when the node crashed at {ct} and still fired at {et}"
+            elif kind in ("LR", "LS") and which == "C17":
+                # identifiers: every local message (to or from the user) has its own id in the trace
+                if f[1] in local_ids:
+                    return f"the local message id {f[1]} appears twice in the trace (second time at {et}): identifiers are not unique"
+                local_ids.add(f[1])
             elif kind == "LR" and which == "C08":
                 if f[1].split("-")[0] in crashed:
                     return f"local message handled on crashed node {f[1].split('-')[0]}"
